@@ -811,7 +811,10 @@ pub struct Outcome {
 
 /// The whole check for one property made of one scenario: determinism self-check, batch, triage, evidence.
 pub fn check_scenarios(property: &str, cfg: &CheckCfg, parts: Vec<Box<dyn PartRunner>>, level_rule: &str, extra_assumptions: Vec<String>, also_checked_build: bool) -> Outcome {
-    let is_child = std::env::var_os("VERIF_CHILD").is_some();
+    // a run on behalf of another run of the same check (its evidence goes to `<id>.<tag>.json` and is folded into the parent's):
+    // the overflow-checked build (VERIF_CHILD) or the AddressSanitizer build (VERIF_EVIDENCE_TAG=asan-build)
+    let evidence_tag: Option<String> = std::env::var("VERIF_EVIDENCE_TAG").ok().or_else(|| std::env::var_os("VERIF_CHILD").map(|_| "checked-build".to_string()));
+    let is_child = evidence_tag.is_some();
     let start = Instant::now();
     let known = load_known_findings();
     let root = verif_root();
@@ -880,6 +883,42 @@ pub fn check_scenarios(property: &str, cfg: &CheckCfg, parts: Vec<Box<dyn PartRu
             }
         }
     }
+    // ---- thorough tier of C05: the same seeded histories (engine H part only: coroutine stack switching confuses the
+    // sanitizer) executed by the AddressSanitizer build, the sanitizer being the oracle for "freed memory was touched". A report
+    // aborts the worker process; the supervisor of that build attributes it to its run, confirms it alone and reports it.
+    let mut asan_report = Value::Null;
+    let mut asan_exit = 0;
+    if !is_child && cfg.tier == Tier::Thorough {
+        if let Some(asan_bin) = std::env::var_os("VERIF_ASAN_BIN") {
+            if std::path::Path::new(&asan_bin).exists() {
+                let out = std::process::Command::new(&asan_bin)
+                    .args(["check", property, cfg.tier.name()])
+                    .env("VERIF_EVIDENCE_TAG", "asan-build")
+                    .env("VERIF_ONLY_PART", "0")
+                    .env("ASAN_OPTIONS", "abort_on_error=1:detect_leaks=0:halt_on_error=1")
+                    .env("VERIF_SEED", cfg.verif_seed.to_string())
+                    .env("VERIF_BUDGET_S", (cfg.budget.as_secs() / 3).max(10).to_string())
+                    .output();
+                match out {
+                    Ok(o) => {
+                        asan_exit = o.status.code().unwrap_or(2);
+                        for line in String::from_utf8_lossy(&o.stdout).lines() {
+                            if line.starts_with("VIOLATION") || line.starts_with("KNOWN-FINDING") || line.starts_with("  oracle=") {
+                                println!("{}", line);
+                            }
+                        }
+                        for line in String::from_utf8_lossy(&o.stderr).lines() {
+                            if line.starts_with("HARNESS-ERROR") {
+                                eprintln!("{} (AddressSanitizer build)", line);
+                            }
+                        }
+                        asan_report = std::fs::read_to_string(root.join("evidence").join(format!("{}.asan-build.json", property))).ok().and_then(|t| serde_json::from_str(&t).ok()).unwrap_or(Value::Null);
+                    }
+                    Err(e) => total.harness_errors.push(format!("cannot run the AddressSanitizer build: {}", e)),
+                }
+            }
+        }
+    }
     let wall = start.elapsed().as_secs_f64();
     // ---- output
     for (_, (kf, n)) in known_hit.iter() {
@@ -923,6 +962,7 @@ pub fn check_scenarios(property: &str, cfg: &CheckCfg, parts: Vec<Box<dyn PartRu
             "known_findings_hit": known_hit.iter().map(|(k, (_, n))| (k.clone(), *n)).collect::<BTreeMap<_, _>>(),
             "components": components,
             "overflow_checked_build_run": child_report.get("coverage").cloned().unwrap_or(Value::Null),
+            "address_sanitizer_build_run": asan_report.get("coverage").cloned().unwrap_or(Value::Null),
             "exhaustive": false,
         },
         "assumptions": assumptions,
@@ -932,7 +972,7 @@ pub fn check_scenarios(property: &str, cfg: &CheckCfg, parts: Vec<Box<dyn PartRu
     let ev_dir = root.join("evidence");
     std::fs::create_dir_all(&ev_dir).ok();
     if std::env::var_os("VERIF_NO_EVIDENCE").is_none() {
-    std::fs::write(ev_dir.join(if is_child { format!("{}.checked-build.json", property) } else { format!("{}.json", property) }), serde_json::to_string_pretty(&evidence).unwrap()).expect("cannot write evidence");
+    std::fs::write(ev_dir.join(match &evidence_tag { Some(tag) => format!("{}.{}.json", property, tag), None => format!("{}.json", property) }), serde_json::to_string_pretty(&evidence).unwrap()).expect("cannot write evidence");
     }
     println!(
         "{} {}: {} runs, {} distinct non-trivial, {} sched points, {} known-finding keys, {} new violations, {:.1}s",
@@ -945,9 +985,9 @@ pub fn check_scenarios(property: &str, cfg: &CheckCfg, parts: Vec<Box<dyn PartRu
         violations_new.len(),
         wall
     );
-    let exit_code = if !violations_new.is_empty() || child_exit == 1 {
+    let exit_code = if !violations_new.is_empty() || child_exit == 1 || asan_exit == 1 {
         1
-    } else if child_exit == 2 {
+    } else if child_exit == 2 || asan_exit == 2 {
         2
     } else if harness_failed {
         2
